@@ -17,15 +17,18 @@ import (
 // node's view of itself is the node. Every call through a View is numbered and may be
 // failed before delivery or after delivery (response lost); nodes can be made unreachable.
 type Net struct {
-	Nodes map[uint64]*rchord.LocalNode
-	views map[[2]uint64]*View
-	Dead  map[uint64]bool
-	Calls []Call // numbered log of delivered/attempted calls (only when Record or Decide is set)
-	Record bool
-	occ    map[string]int
-	nseq   int
+	Nodes     map[uint64]*rchord.LocalNode
+	views     map[[2]uint64]*View
+	Dead      map[uint64]bool
+	Calls     []Call // numbered log of delivered/attempted calls (only when Record or Decide is set)
+	Record    bool
+	occ       map[string]int
+	activeRTJ map[[2]uint64]*Call
+	nseq      int
 	// Decide is consulted for every call; nil = no fault.
 	Decide func(c *Call) FaultMode
+	// Observe, if set, sees every call at "begin" and "end" (err = what the caller gets).
+	Observe func(c *Call, phase string, err error)
 }
 
 type FaultMode int
@@ -37,12 +40,15 @@ const (
 )
 
 type Call struct {
-	Seq    int
-	From   uint64
-	To     uint64
-	Method string
-	Occ    int // occurrence number of (Method) so far, from 1
-	Mode   FaultMode
+	Seq       int
+	From      uint64
+	To        uint64
+	Method    string
+	Occ       int // occurrence number of (Method) so far, from 1
+	Mode      FaultMode
+	Release   bool // FinishJoin/FinishLeave: release flag
+	Forwarded bool // RequestToJoin: the callee forwarded the request to another node
+	depth     int
 }
 
 // ErrUnreachable is the transport error for a dead node; ErrInjected for injected faults.
@@ -136,7 +142,10 @@ func (v *View) begin(method string) (c *Call, err error) {
 
 func (v *View) end(c *Call, err error) error {
 	if c.Mode == LoseResponse {
-		return injectedErr()
+		err = injectedErr()
+	}
+	if v.net.Observe != nil {
+		v.net.Observe(c, "end", err)
 	}
 	return err
 }
@@ -198,7 +207,15 @@ func (v *View) RequestToJoin(j chord.VNode) (chord.VNode, []chord.VNode, error) 
 	if err != nil {
 		return nil, nil, err
 	}
+	if v.net.activeRTJ == nil {
+		v.net.activeRTJ = map[[2]uint64]*Call{}
+	}
+	if parent, ok := v.net.activeRTJ[[2]uint64{v.from, j.ID()}]; ok {
+		parent.Forwarded = true // the node we are called from is forwarding this joiner's request
+	}
+	v.net.activeRTJ[[2]uint64{v.to, j.ID()}] = c
 	p, s, e := v.inner().RequestToJoin(v.net.tr(j, v.to))
+	delete(v.net.activeRTJ, [2]uint64{v.to, j.ID()})
 	if e2 := v.end(c, e); e2 != nil {
 		return nil, nil, e2
 	}
@@ -207,8 +224,12 @@ func (v *View) RequestToJoin(j chord.VNode) (chord.VNode, []chord.VNode, error) 
 
 func (v *View) FinishJoin(st, rel bool) error {
 	c, err := v.begin("FinishJoin")
+	c.Release = rel
 	if err != nil {
 		return err
+	}
+	if v.net.Observe != nil {
+		v.net.Observe(c, "begin", nil)
 	}
 	return v.end(c, v.inner().FinishJoin(st, rel))
 }
@@ -223,8 +244,12 @@ func (v *View) RequestToLeave(l chord.VNode) error {
 
 func (v *View) FinishLeave(st, rel bool) error {
 	c, err := v.begin("FinishLeave")
+	c.Release = rel
 	if err != nil {
 		return err
+	}
+	if v.net.Observe != nil {
+		v.net.Observe(c, "begin", nil)
 	}
 	return v.end(c, v.inner().FinishLeave(st, rel))
 }
